@@ -40,30 +40,38 @@ ObsOk(r) == /\ r.names_ok /\ r.write_ok
 Suffix(q, pre) == SubSeq(q, Len(pre) + 1, Len(q))
 IsPrefix(pre, q) == Len(pre) <= Len(q) /\ SubSeq(q, 1, Len(pre)) = pre
 Distinct(q) == \A i, j \in DOMAIN q : i # j => q[i] # q[j]
+\* the clock readings of the racing threads (one reading for all of them unless the step says otherwise)
+Nows(r) == IF "nows" \in DOMAIN r THEN SetOf(r.nows) ELSE {r.now}
+\* the periods a rotation of this race may open: that of any reading that is due (the thread that wins the rotation decides)
+Cands(r) == {Period(n) : n \in {m \in Nows(r) : Due(m)}}
+RotOk(r, k) ==
+  LET ids == SetOf(r.ids) o == ObsFn(r)
+      obsSeq(j) == r.files[o[j]].ids
+      kept == Pruned(created) base == Restrict(files, SetOf(kept))
+      oldk == IF k \in DOMAIN base THEN base[k] ELSE << >> IN
+  /\ DOMAIN o = SetOf(kept) \cup {k}                                        \* exactly one rotation's worth of pruning
+  /\ \A j \in DOMAIN o : j \notin {k, cur} => obsSeq(j) = base[j]
+  /\ IsPrefix(oldk, obsSeq(k)) /\ Distinct(Suffix(obsSeq(k), oldk)) /\ SetOf(Suffix(obsSeq(k), oldk)) \subseteq ids
+  /\ (cur \in DOMAIN o /\ cur # k =>
+         /\ IsPrefix(files[cur], obsSeq(cur)) /\ Distinct(Suffix(obsSeq(cur), files[cur]))
+         /\ SetOf(Suffix(obsSeq(cur), files[cur])) \subseteq ids
+         /\ SetOf(Suffix(obsSeq(cur), files[cur])) \cap SetOf(Suffix(obsSeq(k), oldk)) = {}
+         /\ SetOf(Suffix(obsSeq(cur), files[cur])) \cup SetOf(Suffix(obsSeq(k), oldk)) = ids)
+  /\ (cur \notin DOMAIN o \/ cur = k => SetOf(Suffix(obsSeq(k), oldk)) \subseteq ids /\ (cur \in DOMAIN o => SetOf(Suffix(obsSeq(k), oldk)) = ids))
 RaceOk(r) ==
   LET ids == SetOf(r.ids) o == ObsFn(r)
       obsSeq(k) == r.files[o[k]].ids IN
   /\ r.names_ok /\ r.write_ok /\ Cardinality({r.files[i].k : i \in DOMAIN r.files}) = Len(r.files)
-  /\ IF Due(r.now) THEN
-       LET k == Period(r.now) kept == Pruned(created) base == Restrict(files, SetOf(kept))
-           oldk == IF k \in DOMAIN base THEN base[k] ELSE << >> IN
-       /\ DOMAIN o = SetOf(kept) \cup {k}                                        \* exactly one rotation's worth of pruning
-       /\ \A j \in DOMAIN o : j \notin {k, cur} => obsSeq(j) = base[j]
-       /\ IsPrefix(oldk, obsSeq(k)) /\ Distinct(Suffix(obsSeq(k), oldk)) /\ SetOf(Suffix(obsSeq(k), oldk)) \subseteq ids
-       /\ (cur \in DOMAIN o /\ cur # k =>
-              /\ IsPrefix(files[cur], obsSeq(cur)) /\ Distinct(Suffix(obsSeq(cur), files[cur]))
-              /\ SetOf(Suffix(obsSeq(cur), files[cur])) \subseteq ids
-              /\ SetOf(Suffix(obsSeq(cur), files[cur])) \cap SetOf(Suffix(obsSeq(k), oldk)) = {}
-              /\ SetOf(Suffix(obsSeq(cur), files[cur])) \cup SetOf(Suffix(obsSeq(k), oldk)) = ids)
-       /\ (cur \notin DOMAIN o \/ cur = k => SetOf(Suffix(obsSeq(k), oldk)) \subseteq ids /\ (cur \in DOMAIN o => SetOf(Suffix(obsSeq(k), oldk)) = ids))
+  /\ IF Cands(r) # {} THEN \E k \in Cands(r) : RotOk(r, k)
      ELSE
        /\ DOMAIN o = DOMAIN files
        /\ \A j \in DOMAIN o : j # cur => obsSeq(j) = files[j]
        /\ IsPrefix(files[cur], obsSeq(cur)) /\ Distinct(Suffix(obsSeq(cur), files[cur])) /\ SetOf(Suffix(obsSeq(cur), files[cur])) = ids
 RaceEffect(r) ==
-  LET o == ObsFn(r) IN
-  /\ files' = [k \in DOMAIN o |-> r.files[o[k]].ids]
-  /\ IF Due(r.now) THEN LET k == Period(r.now) kept == Pruned(created) IN
+  LET o == ObsFn(r)
+      k == IF \E j \in Cands(r) : RotOk(r, j) THEN CHOOSE j \in Cands(r) : RotOk(r, j) ELSE Period(r.now) IN
+  /\ files' = [j \in DOMAIN o |-> r.files[o[j]].ids]
+  /\ IF Cands(r) # {} THEN LET kept == Pruned(created) IN
                           cur' = k /\ nextDate' = (k + 1) * P /\ created' = (IF k \in SetOf(kept) THEN kept ELSE Append(kept, k))
                     ELSE UNCHANGED <<cur, nextDate, created>>
 
